@@ -26,7 +26,7 @@ ID = "C09"
 LEVEL = "exploration"
 RULE = ("one run = one shuffle of a random CNF (0..8 variables, 0..12 "
         "clauses incl. empty clauses, repeated/opposite literals, unused "
-        "variables) through Shuffle(), 'cnfgen dimacs f -T shuffle' or "
+        "variables; 12% of the runs 10..25 variables and 10..30 clauses) through Shuffle(), 'cnfgen dimacs f -T shuffle' or "
         "cnfshuffle (file or stdin), each of the three components fixed / "
         "random / explicit (valid or invalid), on a fair or adversarial "
         "PRNG; the witness is read from the PRNG transcript. Non-trivial: "
